@@ -386,7 +386,7 @@ def discharge(prog, iv, site):
             # the length of a piece of a fixed-size array
             lt = strip(Resolver(f, max_depth=16).operand(ln))
             if lt[0] == "unop" and lt[1] == "PtrMetadata":
-                sl = _static_len(lt[2])
+                sl = _static_len(lt[2], 0, f)
                 if sl is not None and vi is not None and 0 <= vi[0] and vi[1] < sl:
                     return "index %s < static length %d" % (vi, sl)
             return None
@@ -424,7 +424,12 @@ def discharge(prog, iv, site):
                     return "drain(..n) with n = len - k of the same buffer (a checked subtraction never exceeds len)"
         return None
     if kind == "bounds" and (c.endswith("::split_at") or c.endswith("::split_at_mut")) and len(t["args"]) == 2:
-        sl = _static_len(R.operand(t["args"][0]))
+        sl = _static_len(R.operand(t["args"][0]), 0, f)
+        if sl is None:
+            # the receiver is (a borrow of) a local array
+            rl = _root_local(f, t["args"][0])
+            m = re.match(r"\[[^;\]]+; (\d+)\]$", f.local_ty(rl)) if rl is not None else None
+            sl = int(m.group(1)) if m else None
         vm = iv.operand(f, t["args"][1], b)
         if sl is not None and vm is not None and 0 <= vm[0] and vm[1] <= sl:
             return "split point %s <= static length %d" % (vm, sl)
@@ -486,6 +491,11 @@ def discharge(prog, iv, site):
         if pat:
             return pat
         return None
+    if kind == "non-zero":
+        v = iv.operand(f, t["args"][-1], b)
+        if v is not None and (v[0] > 0 or v[1] < 0):
+            return "argument in %s, never 0" % (v,)
+        return None
     if kind == "positive":
         v = iv.operand(f, t["args"][0], b)
         if v is not None and v[0] > 0:
@@ -493,8 +503,10 @@ def discharge(prog, iv, site):
         return None
     if kind == "equal-length":
         # dst[..n].copy_from_slice(&src[a..a+n]) : both lengths are the same expression
-        d, s = strip(R.operand(t["args"][0])), strip(R.operand(t["args"][1]))
-        ld, ls = _slice_len_expr(d), _slice_len_expr(s)
+        d0, s0 = R.operand(t["args"][0]), R.operand(t["args"][1])
+        d, s = strip(d0), strip(s0)
+        ld = str(_static_len(d0, 0, f)) if _static_len(d0, 0, f) is not None else _slice_len_expr(d)
+        ls = str(_static_len(s0, 0, f)) if _static_len(s0, 0, f) is not None else _slice_len_expr(s)
         if ld is not None and ld == ls:
             return "both slices have length %s" % ld
         return None
@@ -525,29 +537,68 @@ def _bits_of(f, op):
     return r.get(ty)
 
 
-def _static_len(t, depth=0):
+def _chunk_len(t):
+    """t is an item of slice.chunks_exact(k) / chunks_exact_mut(k) (however the iteration is spelled): k"""
+    import elems
+    e = elems.elem_of(t)
+    if e is None or e[1]:
+        return None
+    c = e[0]
+    while c[0] in ("ref", "cast"):
+        c = c[1] if c[0] == "ref" else c[2]
+    if c[0] == "call" and c[1].rsplit("::", 1)[-1] in ("chunks_exact", "chunks_exact_mut", "rchunks_exact", "rchunks_exact_mut") and len(c[2]) == 2:
+        k = strip_deep(c[2][1])
+        if k[0] == "const" and isinstance(k[2], int):
+            return k[2]
+    return None
+
+
+def _static_len(t, depth=0, f=None):
     """constant element count of an array-derived slice expression: [x; N], [a, b, c], arr.split_at(k).0 / .1,
-    arr[a..b] with constant bounds"""
+    arr[a..b] with constant bounds, a chunk of chunks_exact(k), the [T; N] produced by a successful try_into"""
     if depth > 6:
         return None
-    t = strip(t)
-    while t[0] == "cast" or t[0] == "ref":
-        t = strip(t[2] if t[0] == "cast" else t[1])
+    for _ in range(10):
+        if t[0] == "cast":
+            t = t[2]
+        elif t[0] in ("ref", "partial"):
+            t = t[1]
+        elif t[0] == "ok" and t[1][0] == "call" and t[1][1].rsplit("::", 1)[-1] == "next":
+            return _chunk_len(t)
+        elif t[0] == "ok" and t[1][0] == "call" and t[1][1].rsplit("::", 1)[-1] in CONVERTERS and t[1][2]:
+            t = ("ok", t[1][2][0])                      # ok(x.internal_err(..)) == ok(x)
+        elif t[0] == "ok":
+            t = t[1]
+        elif t[0] == "call" and t[1].endswith("::try_into") and len(t) > 4 and len(t[4]) == 2:
+            m = re.match(r"\[[^;\]]+; (\d+)\]$", t[4][1])
+            if m:
+                return int(m.group(1))                  # only read after the conversion succeeded
+            t = t[2][0]
+        elif t[0] == "call" and t[2] and any(t[1].endswith(sfx) for sfx in TRANSPARENT_SUFFIX) and t[1].rsplit("::", 1)[-1] not in ("iter", "into_iter", "iter_mut"):
+            t = t[2][0]
+        else:
+            break
     if t[0] == "repeat":
         m = re.match(r"\s*(\d+)", str(t[2]))
         return int(m.group(1)) if m else None
     if t[0] == "agg" and t[1][0] == "array":
         return len(t[2])
+    if t[0] == "param" and f is not None:
+        m = re.match(r"&(?:mut )?\[[^;\]]+; (\d+)\]$", f.local_ty(t[1]))
+        return int(m.group(1)) if m else None
     if t[0] == "field" and t[2] in ("0", "1"):
+        k = _chunk_len(t)
+        if k is not None:
+            return k
         c = strip(t[1])
         if c[0] == "call" and (c[1].endswith("::split_at") or c[1].endswith("::split_at_mut")) and len(c[2]) == 2:
-            n = _static_len(c[2][0], depth + 1)
+            n = _static_len(c[2][0], depth + 1, f)
             k = strip_deep(c[2][1])
             if n is not None and k[0] == "const" and isinstance(k[2], int) and k[2] <= n:
                 return k[2] if t[2] == "0" else n - k[2]
         return None
     if t[0] == "call" and (t[1].endswith("::index") or t[1].endswith("::index_mut")) and len(t[2]) == 2:
-        n = _static_len(t[2][0], depth + 1)
+        n = _static_len(t[2][0], depth + 1, f)
         r = strip(t[2][1])
         if n is not None and r[0] == "agg" and r[1][0] == "adt":
             cs = [strip_deep(x) for x in r[2]]
@@ -558,6 +609,10 @@ def _static_len(t, depth=0):
                     return cs[0][2]
                 if r[1][2] == "RangeFrom" and cs[0][2] <= n:
                     return n - cs[0][2]
+    if t[0] == "call" and (t[1].endswith("to_le_bytes") or t[1].endswith("to_be_bytes")):
+        m = re.search(r"<impl (u|i)(\d+)>", t[1])
+        if m:
+            return int(m.group(2)) // 8
     return None
 
 
@@ -741,6 +796,9 @@ def _index_pattern(f, R, base_t, idx_t):
 
 def _slice_len_expr(t):
     """symbolic length of a slice expression: x[..n] -> n ; x[a..b] -> b - a (as string) ; to_le_bytes -> const"""
+    sl = _static_len(t)
+    if sl is not None:
+        return str(sl)
     if t[0] == "call" and (t[1].endswith("::index") or t[1].endswith("::index_mut")) and len(t[2]) == 2:
         r = strip(t[2][1])
         if r[0] == "agg" and r[1][0] == "adt":
